@@ -795,7 +795,10 @@ func (p *simPeer) mpNextHop(fam wFamily, spec *AttrSpec) []byte {
 func (p *simPeer) buildAnnounce(r *annRoute) []byte {
 	nl := p.encodeNLRI(r.Fam, r.Prefix, r.PathID, r.Label, r.RD)
 	var attrs, tail []byte
-	if r.Fam == famV4 {
+	if r.Fam == famV4 && p.cfg.V4MP {
+		nh := netip.MustParseAddr(r.Spec.NextHop).As4()
+		attrs = p.encodeAttrs(r.Spec, r.Tag, r.Fam, nl, nh[:])
+	} else if r.Fam == famV4 {
 		attrs = p.encodeAttrs(r.Spec, r.Tag, r.Fam, nil, nil)
 		tail = nl
 	} else {
